@@ -1,7 +1,7 @@
 (* C03, bytecode level: what is known of the values of a reachable state (macro values are built by the
    program and in the fragment; no value looks like the VM's keyword-argument bundle), and that
    evaluation / execution preserve it. *)
-From MJ Require Import Common.Base Lang.Syntax Lang.Meta Lang.Interp.
+From MJ Require Import Common.Base Lang.Syntax Lang.Meta Lang.Interp Lang.Facts.
 From MJ Require Import C03.Proofs.
 From MJ Require Import C04.Model.
 From MJ Require Import L2.Instr.
@@ -21,6 +21,13 @@ Proof.
   cbn [L2.Simulation.vok]. split; intros H.
   - induction l as [|x r IH]; constructor; destruct H; auto.
   - induction H; cbn; auto.
+Qed.
+
+Lemma vok_map m : vok (VMap m) <-> entries_all vok m.
+Proof.
+  cbn [L2.Simulation.vok]. unfold entries_all. split; intros H.
+  - induction m as [|[k x] r IH]; constructor; destruct H; cbn [fst snd]; auto.
+  - induction H as [|[k x] r [Hk Hx] Hr IH]; cbn; auto.
 Qed.
 
 Lemma assoc_ok x kv v : kvok kv -> assoc x kv = Some v -> vok v.
@@ -59,7 +66,7 @@ Proof. intros [He Hc] Hf. split; cbn [push_frame s_env s_clos]; auto. Qed.
 Lemma pop_Inv s : Inv s -> Inv (pop_frame s).
 Proof. intros [He Hc]. split; cbn [pop_frame s_env s_clos]; auto. destruct He; cbn; auto. Qed.
 
-Definition scalar (v : value) : Prop := match v with VList _ | VMacro _ _ | VFunc _ => False | _ => True end.
+Definition scalar (v : value) : Prop := match v with VList _ | VMap _ | VMacro _ _ | VFunc _ => False | _ => True end.
 Lemma scalar_ok v : scalar v -> vok v.
 Proof. destruct v; cbn; tauto. Qed.
 
@@ -95,7 +102,7 @@ Proof.
   repeat match goal with |- context [if ?x then _ else _] => destruct x end;
     try (intros H; discriminate H);
     try (destruct (u_not_undef md x); cbn [bind]; intros H; inversion H; exact I).
-  all: try solve [destruct x as [| | | | |[] ?| | | |]; intros H; inversion H; subst; try exact I; try exact Hx;
+  all: try solve [destruct x as [| | | | |[] ?| | | | |]; intros H; inversion H; subst; try exact I; try exact Hx;
                try (destruct Ha; [exact I|assumption])].
   all: try solve [cbn [bind];
                   repeat (match goal with
@@ -103,12 +110,26 @@ Proof.
                           | |- context [match ?y with _ => _ end] => destruct y
                           end; cbn [bind]);
                   intros H; inversion H; subst; try exact I; try exact Hx; try (apply vok_list; apply map_str_ok); try (apply vok_list; constructor)].
-  - destruct x as [| | | | | |l| | |]; try (intros H; inversion H; fail).
-    apply vok_list in Hx. destruct l; intros H; inversion H; subst; [exact I|]. inversion Hx; auto.
-  - destruct x as [| | | | | |l| | |]; try (intros H; inversion H; fail).
+  - (* first *)
+    destruct x as [| | | | | |l|mm| | |]; try (intros H; inversion H; fail).
+    + apply vok_list in Hx. destruct l; intros H; inversion H; subst; [exact I|]. inversion Hx; auto.
+    + apply vok_map in Hx. destruct mm as [|[k0 x0] r]; intros H; inversion H; subst; [exact I|].
+      inversion Hx as [|? ? [Hk _] _]; subst. exact Hk.
+  - (* last *)
+    destruct x as [| | | | | |l|mm| | |]; try (intros H; inversion H; fail).
     apply vok_list in Hx. intros H; inversion H; subst.
     destruct (rev l) as [|y r] eqn:Er; [exact I|].
     eapply Forall_forall in Hx; [exact Hx|]. apply in_rev. rewrite Er. left; reflexivity.
+  - (* list, strict modes *)
+    destruct x as [| | | | | |l|mm| | |]; intros H; inversion H; subst; try exact Hx; try (apply vok_list; constructor); try (apply vok_list; apply map_str_ok).
+    apply vok_list. apply map_keys_all. apply vok_map. exact Hx.
+  - (* list *)
+    destruct x as [| | | | | |l|mm| | |]; intros H; inversion H; subst; try exact Hx; try (apply vok_list; constructor); try (apply vok_list; apply map_str_ok).
+    apply vok_list. apply map_keys_all. apply vok_map. exact Hx.
+  - (* items *)
+    destruct x as [| | | | | |l|mm| | |]; intros H; inversion H; subst.
+    apply vok_map in Hx. apply vok_list. clear H. induction Hx as [|[k0 x0] r [Hk Hv] Hr IH]; cbn [map]; constructor; [|exact IH].
+    apply vok_list. repeat constructor; assumption.
 Qed.
 End InvBasics.
 
@@ -272,8 +293,13 @@ Lemma bind_target_Inv tgt s item s3 : Inv s -> vok item -> bind_target tgt s ite
 Proof.
   intros Hi Hv. destruct tgt as [x|x y]; cbn [bind_target]; intros H.
   - inversion H; subst. apply store_Inv; auto.
-  - destruct item as [| | | | | |l| | |]; try discriminate. destruct l as [|a [|b [|? ?]]]; try discriminate.
-    inversion H; subst. apply vok_list in Hv. inversion Hv as [|? ? Ha Hl2]; subst. inversion Hl2; subst.
+  - destruct (unpack_items item) as [l|] eqn:Eu; [|discriminate].
+    assert (Hl : Forall vok l).
+    { eapply (unpack_items_all vok item l); [| |exact Eu].
+      - intros l0 ->. apply vok_list; exact Hv.
+      - intros m0 ->. apply vok_map; exact Hv. }
+    destruct l as [|a [|b [|? ?]]]; try discriminate.
+    inversion H; subst. inversion Hl as [|? ? Ha Hl2]; subst. inversion Hl2; subst.
     apply store_Inv; [apply store_Inv|]; auto.
 Qed.
 
@@ -358,6 +384,18 @@ Proof.
     destruct (Hev x Hx _ _ _ Hi E1) as [V1 I1]. destruct (IH _ _ _ I1 E2) as [V2 I2]. split; [constructor; auto|auto].
 Qed.
 
+Lemma map_eval_pairs_Inv pairs : Forall (fun p => P (fst p) /\ P (snd p)) pairs -> forall s kvs s', Inv s ->
+  map_eval_pairs ev s pairs = Ok (kvs, s') -> entries_all vok kvs /\ Inv s'.
+Proof.
+  induction 1 as [|[k x] r [Hk Hx] Hr IH]; intros s vs s' Hi He; cbn [map_eval_pairs] in He.
+  - inversion He; subst. split; [constructor|auto].
+  - fold (map_eval_pairs ev) in He. cbn [fst snd] in Hk, Hx.
+    bstep He p1 E1. destruct p1 as [kv s1]. bstep He p2 E2. destruct p2 as [xv s2]. bstep He p3 E3. destruct p3 as [vr s3].
+    inversion He; subst.
+    destruct (Hev k Hk _ _ _ Hi E1) as [V1 I1]. destruct (Hev x Hx _ _ _ I1 E2) as [V2 I2]. destruct (IH _ _ _ I2 E3) as [V3 I3].
+    split; [apply entries_all_cons; auto|auto].
+Qed.
+
 Lemma cmp_chain_Inv m rest : Forall (fun p => P (snd p)) rest -> forall left s v s', Inv s ->
   cmp_chain m ev left s rest = Ok (v, s') -> vok v /\ Inv s'.
 Proof.
@@ -376,8 +414,8 @@ Lemma with_binds_Inv binds : Forall (fun p => P (snd p)) binds -> forall s s', I
 Proof.
   induction 1 as [|[x e] r Hx Hr IH]; intros s s' Hi He; cbn [with_binds] in He.
   - inversion He; subst; auto.
-  - fold (with_binds ev) in He. cbn [snd] in Hx. bstep He p1 E1. destruct p1 as [v s1].
-    destruct (Hev e Hx _ _ _ Hi E1) as [V1 I1]. eapply IH; [|exact He]. apply store_Inv; auto.
+  - fold (with_binds ev) in He. cbn [snd] in Hx. bstep He p1 E1. destruct p1 as [v s1]. bstep He s2 E2.
+    destruct (Hev e Hx _ _ _ Hi E1) as [V1 I1]. eapply IH; [|exact He]. eapply bind_target_Inv; eauto.
 Qed.
 
 Lemma filter_items_Inv m tgt fe : P fe -> forall items s kept s3, Forall vok items -> Inv s ->
@@ -432,11 +470,12 @@ End CombStmt.
 
 Lemma items_ok m iv items : vok iv -> loop_items_of m iv = Ok items -> Forall vok items.
 Proof.
-  intros Hv. destruct iv as [| | | | |sf t| | | |]; cbn [loop_items_of]; try discriminate.
+  intros Hv. destruct iv as [| | | | |sf t| | | | |]; cbn [loop_items_of]; try discriminate.
   - destruct (u_strictish m); intros H; inversion H; subst. constructor.
   - intros H; inversion H; subst. constructor.
   - intros H; inversion H; subst. clear. induction t; constructor; [exact I|assumption].
   - intros H; inversion H; subst. apply vok_list in Hv. exact Hv.
+  - intros H; inversion H; subst. apply vok_map in Hv. apply map_keys_all. exact Hv.
 Qed.
 
 End InvAll.
@@ -498,6 +537,11 @@ Proof.
     + bstep He p1 E1. destruct p1 as [vs s1]. inversion He; subst.
       destruct (map_eval_Inv C (eval c fuel esc) (fun e => l2_expr e = true) (EV esc) items (forallb_F _ _ Hw) _ _ _ Hi E1) as [V I1].
       split; [apply vok_list; auto|auto].
+    + bstep He p1 E1. destruct p1 as [kvs s1]. inversion He; subst.
+      assert (Hpairs : Forall (fun p => l2_expr (fst p) = true /\ l2_expr (snd p) = true) pairs).
+      { apply forallb_F in Hw. eapply Forall_impl; [|exact Hw]. intros p Hp. apply andb_prop in Hp. exact Hp. }
+      destruct (map_eval_pairs_Inv C (eval c fuel esc) (fun e => l2_expr e = true) (EV esc) pairs Hpairs _ _ _ Hi E1) as [V I1].
+      split; [apply vok_map; apply map_of_pairs_all; exact V|auto].
     + bstep He p1 E1. destruct p1 as [x s1]. destruct (EV esc e Hw _ _ _ Hi E1) as [V I1].
       destruct x; try discriminate. inversion He; subst. split; [exact I|auto].
     + bstep He p1 E1. destruct p1 as [x s1]. destruct (EV esc e Hw _ _ _ Hi E1) as [V I1].
@@ -522,13 +566,18 @@ Proof.
     + apply andb_prop in Hw as [H1 H2].
       bstep He p1 E1. destruct p1 as [x s1]. bstep He p2 E2. destruct p2 as [k s2].
       destruct (EV esc e1 H1 _ _ _ Hi E1) as [V1 I1]. destruct (EV esc e2 H2 _ _ _ I1 E2) as [V2 I2].
-      destruct (match x with VList l => match k with VInt z => idx_list l z | _ => None end | _ => None end) as [w|] eqn:Ew.
+      destruct (get_item_opt x k) as [w|] eqn:Ew.
       * inversion He; subst. split; [|auto].
-        destruct x; try discriminate. destruct k; try discriminate. apply vok_list in V1. eapply idx_list_ok; eauto.
+        eapply (get_item_opt_all vok x k); [| |exact Ew].
+        -- intros l0 ->. apply vok_list; exact V1.
+        -- intros m0 ->. apply vok_map; exact V1.
       * bstep He w Eu. inversion He; subst. split; [eapply u_handle_undefined_ok; eauto|auto].
     + bstep He p1 E1. destruct p1 as [x s1]. destruct (EV esc e Hw _ _ _ Hi E1) as [V1 I1].
-      destruct (match x with VLoop i n => loop_attr i n a | _ => None end) as [w|] eqn:Ew.
-      * inversion He; subst. split; [|auto]. destruct x; try discriminate. eapply loop_attr_ok; eauto.
+      destruct (get_attr_opt x a) as [w|] eqn:Ew.
+      * inversion He; subst. split; [|auto].
+        eapply (get_attr_opt_all vok x a); [| |exact Ew].
+        -- intros i0 n0 w0 _ Hl. eapply loop_attr_ok; eauto.
+        -- intros m0 ->. apply vok_map; exact V1.
       * bstep He w Eu. inversion He; subst. split; [eapply u_handle_undefined_ok; eauto|auto].
     + apply andb_prop in Hw as [H1 H2].
       bstep He p1 E1. destruct p1 as [x s1]. bstep He p2 E2. destruct p2 as [vs s2].
@@ -546,10 +595,10 @@ Proof.
       destruct (map_eval_Inv C (eval c fuel esc) (fun e => l2_expr e = true) (EV esc) args (forallb_F _ _ H1) _ _ _ Hi E1) as [V1 I1].
       destruct (map_eval_kw_Inv C (eval c fuel esc) (fun e => l2_expr e = true) (EV esc) kwargs (forallb_F _ _ H2) _ _ _ I1 E2) as [V2 I2].
       destruct (lookup c s2 f) as [fv s3] eqn:El. destruct (lookup_ok c C Hcfg _ _ _ _ I2 El) as [Vf I3].
-      destruct fv as [[| | | | | | |mc cl| |g]|]; try discriminate.
+      destruct fv as [[| | | | | | | |mc cl| |g]|]; try discriminate.
       * eapply IHc; eauto.
       * destruct (g =? N_range)%Z; [|discriminate].
-        destruct vs as [|[| | | |k| | | | |] [|? ?]]; try discriminate. destruct kvs; [|discriminate].
+        destruct vs as [|[| | | |k| | | | | |] [|? ?]]; try discriminate. destruct kvs; [|discriminate].
         inversion He; subst. split; [apply vok_list, range_ok|auto].
   - (* call_macro *)
     intros esc s mc cl args kw v s' Hi Hm Ha Hk He.
@@ -598,8 +647,8 @@ Proof.
       pose proof (pop_Inv C _ I5) as I6.
       destruct items as [|it0 items']; [destruct els as [eb|]|]; try (inversion He; subst; exact I6).
       exact (IHl inl eb Hels Pe _ _ _ _ I6 He).
-    + bstep He p1 E1. destruct p1 as [v s1]. inversion He; subst.
-      destruct (EV esc e Hw _ _ _ Hi E1) as [V1 I1]. apply store_Inv; auto.
+    + bstep He p1 E1. destruct p1 as [v s1]. bstep He s2 E2. inversion He; subst.
+      destruct (EV esc e Hw _ _ _ Hi E1) as [V1 I1]. eapply bind_target_Inv; eauto.
     + pose proof (placed_setblock C _ _ _ Hp) as Pb.
       bstep He p1 E1. destruct p1 as [[sg1 txt] s1]. bstep E1 p2 E2. destruct p2 as [sg2 s2]. inversion E1; subst. clear E1.
       assert (I2 : Inv (with_out s2 (s_out s))).
@@ -626,7 +675,7 @@ Proof.
       destruct (enclose c s1 (macro_closure [] [] body)) as [s2 cl] eqn:Ee.
       pose proof (enclose_Inv c C Hcfg _ _ _ _ I1 Ee) as I2.
       destruct (lookup c s2 m) as [fv s3] eqn:El. destruct (lookup_ok c C Hcfg _ _ _ _ I2 El) as [Vf I3].
-      destruct fv as [[| | | | | | |mc mcl| |g]|]; try discriminate.
+      destruct fv as [[| | | | | | | |mc mcl| |g]|]; try discriminate.
       bstep He p4 E4. destruct p4 as [v s4]. inversion He; subst.
       assert (Vcm : vok (VMacro (mkMacro N_caller [] [] body (uses_caller [] [] body)) cl)).
       { cbn [L2.Simulation.vok]. repeat split; cbn [m_defaults m_body]; auto. eapply placed_callblock; eauto. }
